@@ -523,6 +523,27 @@ def legacy_header_self_consistent(ctx, P):
               missing=None if good else 'the header octet is written as parsed while the number of length octets follows the value: [0x89, 0x00, 0x05] is re-serialised as [0x89, 0x05]')
 
 
+def legacy_header_tag_range(ctx, P):
+    """The legacy format has four tag bits: a writer that shifts the tag into a legacy header octet must first reject tags >= 16
+    (PacketHeader::from_parts does; PacketHeaderVersion::write_header must as well), otherwise the tag spills into the format bit and
+    e.g. tag 17 is written as a new-format header of tag 4."""
+    b = ctx.body('types::packet::PacketHeaderVersion::write_header')
+    if b is None:
+        return
+    dom = b.dominators()
+    from rules.common import direct_cmp_switches
+    sinks = []
+    for i, t in b.calls(r'WriteBytesExt::write_u8$'):
+        if has_origin(b.operand_origins(t['args'][1]), r'op:Shl$') and any(a == 'PacketHeaderVersion' and vs == ['Old'] for a, vs in arm_context_(b, i, dom)):
+            sinks.append(i)
+    gs = [g for g, op, side in direct_cmp_switches(b, lambda k, v: True, lambda c: c in (15, 16))]
+    gs = [g for g in gs if any(not (set(sinks) & b.reach_from([j])) for j, _ in b.succ(g))]
+    ok, wit = must_pass(b, sinks, gs) if sinks and gs else (False, None)
+    ctx.check(P + ':S17-7:legacy-writer-rejects-tag-ge-16', 'R-dom', 'PacketHeaderVersion::write_header refuses tags >= 16 before it builds a legacy header octet', ok and len(sinks) >= 3,
+              function=b.path, site=site(b, sinks[0]) if sinks else None,
+              missing=None if ok else 'no rejecting comparison of the tag with 16: write_header(Old, UserAttribute, 5) emits 0xC4 0x05, a new-format header of tag 4')
+
+
 def arm_context_(b, i, dom):
     from rules.common import arm_context
     return [(a, vs) for a, vs in arm_context(b, i, dom)]
@@ -542,6 +563,7 @@ def run(ctx):
     partial_emitters(ctx, P)
     running_offset_emitters(ctx, P)
     legacy_header_self_consistent(ctx, P)
+    legacy_header_tag_range(ctx, P)
     # re-serialised packets get a header derived from the bytes that follow (shared with C05)
     from rules import c05
     c05.header_derivation(ctx, P)
